@@ -120,14 +120,14 @@ func c12Probe(root stackage.Stack, maxIdx, maxPath int) (out []string, panicked 
 		out = append(out, fmt.Sprintf("IsNesting=%v Len=%d", root.IsNesting(), root.Len()))
 		var walk func(v any, path string)
 		walk = func(v any, path string) {
-			if s, ok := stackage.ConvertStack(v); ok {
+			if s, ok := refAsStack(v); ok {
 				out = append(out, fmt.Sprintf("%s: stack kind=%s len=%d nesting=%v str=%q", path, s.Kind(), s.Len(), s.IsNesting(), s.String()))
 				for i, e := range contents(s) {
 					walk(e, fmt.Sprintf("%s.%d", path, i))
 				}
 				return
 			}
-			if c, ok := stackage.ConvertCondition(v); ok {
+			if c, ok := refAsCond(v); ok {
 				out = append(out, fmt.Sprintf("%s: cond len=%d nesting=%v fifo=%v str=%q", path, c.Len(), c.IsNesting(), c.IsFIFO(), c.String()))
 				walk(c.Expression(), path+".e")
 				return
@@ -163,10 +163,10 @@ func c12Value(v any) string {
 	if v == nil {
 		return "nil"
 	}
-	if s, ok := stackage.ConvertStack(v); ok {
+	if s, ok := refAsStack(v); ok {
 		return "stack:" + s.Kind() + ":" + s.String()
 	}
-	if c, ok := stackage.ConvertCondition(v); ok {
+	if c, ok := refAsCond(v); ok {
 		return "cond:" + c.String()
 	}
 	return fmt.Sprintf("%T:%v", v, v)
